@@ -225,7 +225,7 @@ func checkC09(rc *RunCtx) *Report {
 	rep.Coverage["candidates_from_abstraction"] = nums["candidates"]
 	rep.Coverage["unconfirmed_candidates"] = nums["unconfirmed_candidates"]
 	rep.Coverage["confirm_search_nodes"] = nums["confirm_search_nodes"]
-	rep.Coverage["traces_validated_against_impl"] = 0
+	rep.Coverage["traces_validated_against_impl"] = nums["traces_validated"]
 	rep.Sample(3, map[string]interface{}{"scenarios": func() []string {
 		var n []string
 		for _, s := range scs {
